@@ -64,6 +64,33 @@ template<class C, class R> static void op_case(const Pattern &p, hx::Rng &rng, c
     });
 }
 
+// block value type (static_matrix<scalar,2,2>): the scalar SPD M-matrix in natural ordering is viewed through adapter::block_matrix, so
+// its off-diagonal BLOCKS are not symmetric by themselves; the cycle must still be one fixed linear SYMMETRIC operator on the scalar vector
+#include <amgcl/adapter/block_matrix.hpp>
+#include <amgcl/value_type/static_matrix.hpp>
+template<class C, class R> static void block_op_case(const Pattern &p, hx::Rng &rng, const Cyc &cyc, bool symmetric_smoother) {
+    hx::run_case(std::string("blockop/")+C::name()+"+"+R::name()+"/"+p.name+"/"+cyc.tag(), [&]() {
+        typedef amgcl::static_matrix<scalar,2,2> Blk; typedef amgcl::static_matrix<scalar,2,1> BV; typedef be::builtin<Blk> BB; typedef be::numa_vector<BV> BNV;
+        hx::Rng r2(rng.s); SCrs A=hx::mmatrix(p,r2); int n=p.n, nb=n/2; auto Am=hx::to_amgcl(A); typedef amgcl::amg<BB,C::template type,R::template type> AMG; typename AMG::params prm; setp<AMG>(prm,cyc);
+        AMG amg(amgcl::adapter::block_matrix<Blk>(*Am),prm);
+        auto app=[&](const AMG &a, const std::vector<scalar> &f) { BNV F(nb,false), X(nb,false); for (int I=0;I<nb;++I) { BV v, j; for (int r=0;r<2;++r) { v(r)=f[2*I+r]; j(r)=hx::junk("x"+std::to_string(2*I+r)); } F[I]=v; X[I]=j; } a.apply(F,X); std::vector<scalar> y; for (int I=0;I<nb;++I) for (int r=0;r<2;++r) y.push_back(X[I](r)); return y; };
+        std::vector<scalar> f=hx::sym_vector("f",n), g=hx::sym_vector("g",n,-0.5), fg(n); scalar a=scalar(3)/scalar(7), b=scalar(-5)/scalar(3); for (int i=0;i<n;++i) fg[i]=a*f[i]+b*g[i];
+        std::vector<scalar> Bf=app(amg,f);
+        { bool ok=true; for (auto &v : Bf) ok=ok&&hx::independent_of(v,"junk_"); hx::require("block values: apply() does not depend on the old content of the output vector", ok); }
+        std::vector<scalar> Bg=app(amg,g), Bfg=app(amg,fg), lin(n); for (int i=0;i<n;++i) lin[i]=a*Bf[i]+b*Bg[i];
+        hx::prove_eq_vec("block values: B(a f + b g) = a B f + b B g", Bfg, lin);
+        std::vector<scalar> Bf2=app(amg,f); bool same=true; for (int i=0;i<n;++i) same=same&&hx::same_handle(Bf2[i],Bf[i]); hx::require("block values: apply(f) after other applications performs the same operations (bitwise equal)", same);
+#ifdef HX_SYM
+        if (!hx::concrete()) { std::vector<std::vector<mpq_class>> B; bool lin_ok=extract(Bf,n,B); hx::require("block values: B f is a linear form in f with constant coefficients", lin_ok); if (!lin_ok) return;
+            if (symmetric_smoother) { std::vector<hx::F> symm; for (int i=0;i<n;++i) for (int j=i+1;j<n;++j) symm.push_back(hx::eq(scalar::q(B[i][j]),scalar::q(B[j][i]))); hx::prove_all("block values: B is symmetric", symm);
+                std::vector<scalar> v; for (int i=0;i<n;++i) v.push_back(var("v"+std::to_string(i),i==0?1.0:0.0));
+                auto mul=[&](const std::vector<std::vector<mpq_class>> &M, const std::vector<scalar> &x) { std::vector<scalar> y(n,scalar(0)); for (int i=0;i<n;++i) { scalar s=0; for (int j=0;j<n;++j) if (M[i][j]!=0) s+=scalar::q(M[i][j])*x[j]; y[i]=s; } return y; };
+                std::vector<scalar> Bv=mul(B,v); scalar vBv=0; for (int i=0;i<n;++i) vBv+=v[i]*Bv[i]; std::vector<hx::F> nz; for (int i=0;i<n;++i) nz.push_back(hx::ne(v[i],scalar(0)));
+                hx::prove("block values: B is positive definite: v != 0 => v'Bv > 0", hx::implies(hx::any_of(nz), hx::lt(scalar(0),vBv))); } }
+#endif
+    });
+}
+
 int main(int argc, char **argv) {
     hx::parse_args(argc,argv); bool T=hx::thorough(); hx::Rng rng(hx::args().seed);
     hx::encodes("amg<builtin<scalar>,C,R>::apply / cycle for C in {aggregation, smoothed_aggregation, smoothed_aggr_emin, ruge_stuben}, R in {spai0, damped_jacobi, gauss_seidel, ilu0, iluk, ilup, chebyshev, ilut}");
@@ -74,5 +101,7 @@ int main(int argc, char **argv) {
     for (auto &p : pats) for (size_t ci=0; ci<cycs.size(); ++ci) { const Cyc &c=cycs[ci]; bool symcyc = c.npre==c.npost; bool small=p.n<=9;
         op_case<SA,SP>(p,rng,c,symcyc,small); op_case<AG,DJ>(p,rng,c,symcyc,small); op_case<SA,GS>(p,rng,c,symcyc,small);
         if (ci<2 || T) { op_case<RS,SP>(p,rng,c,symcyc,small); op_case<EM,DJ>(p,rng,c,false,false); op_case<SA,I0>(p,rng,c,symcyc,small); op_case<AG,IK>(p,rng,c,symcyc,small); op_case<SA,IP>(p,rng,c,symcyc,small); op_case<SA,CH>(p,rng,c,symcyc,small && p.n<=6); op_case<SA,IT>(p,rng,c,false,false); } }
+    { std::vector<Pattern> bp{hx::grid_pattern(3,2),hx::band_pattern(8,1)}; if (T) { bp.push_back(hx::grid_pattern(4,3)); bp.push_back(hx::grid_pattern(4,2)); }
+      for (auto &p : bp) for (size_t ci=0; ci<(T?cycs.size():2); ++ci) { const Cyc &c=cycs[ci]; bool symcyc=c.npre==c.npost; block_op_case<SA,SP>(p,rng,c,symcyc); block_op_case<AG,DJ>(p,rng,c,symcyc); if (T || ci==0) block_op_case<SA,I0>(p,rng,c,symcyc); } }
     return hx::finish();
 }
